@@ -87,11 +87,14 @@ class World:
         self._arg = None
         self.clock_sync = None
         self.last_payload = None
+        self.in_line_seam = False
 
     # ---------------------------------------------------------------- helpers
     def rel(self, path):
         if path is None:
             return None
+        if isinstance(path, str) and not path.startswith("/"):
+            return path
         p = os.fspath(path)
         if isinstance(p, bytes):
             p = p.decode("utf-8", "replace")
